@@ -17,6 +17,7 @@ import (
 	"net/http"
 	"os"
 	"runtime"
+	"strconv"
 	"sync"
 	"sync/atomic"
 	"syscall"
@@ -47,6 +48,60 @@ func settle(g0, f0 int, d time.Duration) (int, int) {
 		}
 		time.Sleep(20 * time.Millisecond)
 	}
+}
+
+// highest descriptor number currently open in this process
+func maxFd() int {
+	d, err := os.ReadDir("/proc/self/fd")
+	if err != nil {
+		return 64
+	}
+	m := 0
+	for _, e := range d {
+		if n, err := strconv.Atoi(e.Name()); err == nil && n > m {
+			m = n
+		}
+	}
+	return m
+}
+
+// fdLimit makes the next engine use a connection table (sized by Engine.Start from the package variable MaxOpenFiles)
+// that ends a few descriptors above the ones in use, so that some of the history's connections are refused with
+// "too many open files" (fd >= MaxOpenFiles). Call restore() right after Start. Returns the table size (0: unlimited).
+func fdLimit(r *rand.Rand, np int) (int, func()) {
+	old := nbio.MaxOpenFiles
+	lim := maxFd() + 1 + 3*np + 12 + 2*r.Intn(5)
+	if lim >= old {
+		return 0, func() {}
+	}
+	nbio.MaxOpenFiles = lim
+	return lim, func() { nbio.MaxOpenFiles = old }
+}
+
+// fillFds opens descriptors until only `room` descriptor numbers are left below lim, so that after about room/2
+// connections (each uses one descriptor on either side, both in this process) the engine refuses the next ones.
+func fillFds(lim, room int, h *history) []*os.File {
+	var fs []*os.File
+	for lim > 0 && maxFd()+1 < lim-room && len(fs) < 4096 {
+		f, err := os.Open("/dev/null")
+		if err != nil {
+			break
+		}
+		fs = append(fs, f)
+	}
+	if lim > 0 {
+		h.Steps = append(h.Steps, fmt.Sprintf("fd-table-room-%d", room))
+	}
+	return fs
+}
+
+// forced configuration of a corpus case (zero value: everything drawn from the seed)
+type force struct {
+	fdlimit  bool
+	room     int
+	iomod    int // 1 + nbhttp.IOMod*, 0 = random
+	stopKind string
+	minSteps int
 }
 
 func freePort() string {
@@ -87,7 +142,7 @@ func epollCfg(mode int) (uint32, uint32, string) {
 const watchdog = 12 * time.Second
 
 // ---------------- core engine ----------------
-func coreCase(rep *hx.Report, seed int64) {
+func coreCase(rep *hx.Report, seed int64, fo force) {
 	r := rand.New(rand.NewSource(seed))
 	g0, f0 := settle(0, 0, 0)
 	em, os1, mname := epollCfg(r.Intn(3))
@@ -103,7 +158,15 @@ func coreCase(rep *hx.Report, seed int64) {
 	if overflowCase {
 		maxw = 4096
 	}
-	g := nbio.NewEngine(nbio.Config{Network: "tcp", Addrs: []string{addr}, NPoller: np, EpollMod: em, EPOLLONESHOT: os1, MaxWriteBufferSize: maxw})
+	var g *nbio.Engine
+	mkEngine := func() {
+		g = nbio.NewEngine(nbio.Config{Network: "tcp", Addrs: []string{addr}, NPoller: np, EpollMod: em, EPOLLONESHOT: os1, MaxWriteBufferSize: maxw})
+	}
+	lim, restoreLimit := 0, func() {}
+	if r.Intn(4) == 0 || fo.fdlimit {
+		lim, restoreLimit = fdLimit(r, np)
+	}
+	mkEngine()
 	var mu sync.Mutex
 	var sconns []*nbio.Conn
 	g.OnOpen(func(c *nbio.Conn) {
@@ -115,7 +178,9 @@ func coreCase(rep *hx.Report, seed int64) {
 	})
 	g.OnClose(func(c *nbio.Conn, err error) { ev('n'); atomic.AddInt64(&closed, 1) })
 	g.OnData(func(c *nbio.Conn, data []byte) { c.Write(append([]byte{}, data...)) })
-	if err := g.Start(); err != nil {
+	err := g.Start()
+	restoreLimit()
+	if err != nil {
 		rep.Stat("core.start-failed")
 		return
 	}
@@ -135,7 +200,22 @@ func coreCase(rep *hx.Report, seed int64) {
 		}
 	}()
 	var clients []net.Conn
+	room := 2 * r.Intn(4)
+	if fo.fdlimit {
+		room = fo.room
+	}
+	fillers := fillFds(lim, room, h)
+	closeFillers := func() {
+		for _, f := range fillers {
+			f.Close()
+		}
+		fillers = nil
+	}
+	defer closeFillers()
 	nsteps := r.Intn(9)
+	if nsteps < fo.minSteps {
+		nsteps = fo.minSteps
+	}
 	for i := 0; i < nsteps; i++ {
 		switch r.Intn(8) {
 		case 0, 1: // accepted connection, some traffic
@@ -216,6 +296,9 @@ func coreCase(rep *hx.Report, seed int64) {
 		h.Steps = append(h.Steps, "concurrent-closes")
 	}
 	h.StopKind = []string{"Stop", "Shutdown"}[r.Intn(2)]
+	if fo.stopKind != "" {
+		h.StopKind = fo.stopKind
+	}
 	done := make(chan struct{})
 	t0 := time.Now()
 	go func() {
@@ -242,6 +325,7 @@ func coreCase(rep *hx.Report, seed int64) {
 	h.Log = string(evlog)
 	logMu.Unlock()
 	ext.Close()
+	closeFillers()
 	finish(rep, h, g0, f0, func() {
 		for _, c := range clients {
 			c.Close()
@@ -268,11 +352,14 @@ func (l *faultListener) Accept() (net.Conn, error) {
 	return l.Listener.Accept()
 }
 
-func httpCase(rep *hx.Report, seed int64) {
+func httpCase(rep *hx.Report, seed int64, fo force) {
 	r := rand.New(rand.NewSource(seed))
 	g0, f0 := settle(0, 0, 0)
 	em, os1, mname := epollCfg(r.Intn(3))
 	iomod := []int{nbhttp.IOModNonBlocking, nbhttp.IOModBlocking, nbhttp.IOModMixed}[r.Intn(3)]
+	if fo.iomod > 0 {
+		iomod = fo.iomod - 1
+	}
 	addr := freePort()
 	h := &history{Engine: "nbhttp", Mode: fmt.Sprintf("%s/iomod=%d", mname, iomod), NPoller: 1 + r.Intn(2), Seed: seed}
 	conf := nbhttp.Config{Network: "tcp", Addrs: []string{addr}, NPoller: h.NPoller, EpollMod: em, EPOLLONESHOT: os1, IOMod: iomod,
@@ -292,13 +379,36 @@ func httpCase(rep *hx.Report, seed int64) {
 		}
 		h.Steps = append(h.Steps, fmt.Sprintf("accept-error-at-call-%d", at))
 	}
-	e := nbhttp.NewEngine(conf)
-	if err := e.Start(); err != nil {
+	var e *nbhttp.Engine
+	mkEngine := func() { e = nbhttp.NewEngine(conf) }
+	lim, restoreLimit := 0, func() {}
+	if r.Intn(3) == 0 || fo.fdlimit {
+		lim, restoreLimit = fdLimit(r, h.NPoller)
+	}
+	mkEngine()
+	err := e.Start()
+	restoreLimit()
+	if err != nil {
 		rep.Stat("http.start-failed")
 		return
 	}
 	var clients []net.Conn
+	room := 2 * r.Intn(4)
+	if fo.fdlimit {
+		room = fo.room
+	}
+	fillers := fillFds(lim, room, h)
+	closeFillers := func() {
+		for _, f := range fillers {
+			f.Close()
+		}
+		fillers = nil
+	}
+	defer closeFillers()
 	nsteps := r.Intn(7)
+	if nsteps < fo.minSteps {
+		nsteps = fo.minSteps
+	}
 	for i := 0; i < nsteps; i++ {
 		c, err := net.DialTimeout("tcp", addr, time.Second)
 		if err != nil {
@@ -326,6 +436,9 @@ func httpCase(rep *hx.Report, seed int64) {
 	}
 	time.Sleep(time.Duration(20+r.Intn(40)) * time.Millisecond)
 	h.StopKind = []string{"Stop", "Shutdown"}[r.Intn(2)]
+	if fo.stopKind != "" {
+		h.StopKind = fo.stopKind
+	}
 	done := make(chan struct{})
 	t0 := time.Now()
 	go func() {
@@ -345,6 +458,7 @@ func httpCase(rep *hx.Report, seed int64) {
 	}
 	h.StopMs = time.Since(t0).Milliseconds()
 	h.Opened, h.Closed = -1, -1
+	closeFillers()
 	finish(rep, h, g0, f0, func() {
 		for _, c := range clients {
 			c.Close()
@@ -447,13 +561,22 @@ func main() {
 		defer model.Close()
 	}
 	rep := hx.NewReport("stop", *seed)
-	rep.Rule = "histories of accepts, AddConn, DialAsync, echo traffic, multi-MiB backlogs to non-reading peers, vectored writes beyond MaxWriteBufferSize, pending deadlines, peer and server closes, closes racing Stop; nbhttp: exchanges, half requests, idle and unread-response connections, an injected Accept error; x {LT, ET, ET+ONESHOT} x NPoller x IOMod x {Stop, Shutdown}; non-trivial = at least one step before Stop; distinct = distinct (configuration, step list)"
+	rep.Rule = "histories of accepts, AddConn, DialAsync, echo traffic, multi-MiB backlogs to non-reading peers, vectored writes beyond MaxWriteBufferSize, pending deadlines, peer and server closes, closes racing Stop; nbhttp: exchanges, half requests, idle and unread-response connections, an injected Accept error; connections refused because the descriptor table (MaxOpenFiles) is full, for accepted / added / dialed / nbhttp connections (corpus + random); x {LT, ET, ET+ONESHOT} x NPoller x IOMod x {Stop, Shutdown}; non-trivial = at least one step before Stop; distinct = distinct (configuration, step list)"
 	// warm up lazily started runtime goroutines so the baseline is stable
-	coreCase(hx.NewReport("warmup", 0), 12345)
-	httpCase(hx.NewReport("warmup", 0), 12345)
+	coreCase(hx.NewReport("warmup", 0), 12345, force{})
+	httpCase(hx.NewReport("warmup", 0), 12345, force{})
+	// corpus first: connections refused because the descriptor table is full, for every way a connection enters
+	for i, sk := range []string{"Shutdown", "Stop"} {
+		for room := 0; room <= 4; room += 2 {
+			coreCase(rep, *seed*100043+int64(10*i+room), force{fdlimit: true, room: room, stopKind: sk, minSteps: 5})
+			for _, im := range []int{nbhttp.IOModNonBlocking, nbhttp.IOModMixed, nbhttp.IOModBlocking} {
+				httpCase(rep, *seed*100057+int64(100*i+10*room+im), force{fdlimit: true, room: room, iomod: 1 + im, stopKind: sk, minSteps: 3})
+			}
+		}
+	}
 	for i := 0; i < *n && !rep.TooMany(); i++ {
-		coreCase(rep, *seed*100003+int64(i))
-		httpCase(rep, *seed*100019+int64(i))
+		coreCase(rep, *seed*100003+int64(i), force{})
+		httpCase(rep, *seed*100019+int64(i), force{})
 	}
 	rep.Write(*out)
 }
